@@ -193,6 +193,18 @@ def rule_title(prog, fixture=False):
                                       for x in walk(v["c"][0]))
                 if not via:
                     bad = p
+            if not pushes:
+                # the characters may be produced wholesale: std::transform(first, last, out, byte_to_ascii7)
+                tr = [n for n in fn.walk() if n.get("k") == "CallExpr" and notpl(n.get("q") or "") == "std::transform"]
+                via_tr = [n for n in tr if any(x.get("k") == "DeclRefExpr" and (x.get("n") or "") == "byte_to_ascii7"
+                                               for x in walk(call_args(n)[-1]))] if tr else []
+                if tr and len(via_tr) == len(tr):
+                    r.add("%s::%s" % (fn.relfile(), fn.qn), "%s:%d" % (fn.relfile(), fn.line), True,
+                          "characters produced by std::transform through byte_to_ascii7")
+                    continue
+                if not tr:
+                    r.undecided.append("%s: cannot see where the characters of the result are produced" % fn.qn)
+                    continue
             r.add("%s::%s" % (fn.relfile(), fn.qn), "%s:%d" % (fn.relfile(), fn.line), bad is None and bool(pushes),
                   "%d characters appended, all through byte_to_ascii7" % len(pushes) if bad is None and pushes else
                   "a character is appended without removing the top bit (%s)" % (show(bad) if bad else "no push found"))
